@@ -24,6 +24,21 @@ def run(f):
                    stdout=subprocess.DEVNULL, stderr=subprocess.DEVNULL)
     return out
 
+# at most SUITE_SLOTS suites run at the same time on this machine (each uses 14 workers)
+import fcntl, time
+SUITE_SLOTS = 3
+_slot = None
+while _slot is None:
+    for i in range(SUITE_SLOTS):
+        f = open(f"/var/tmp/suite_slot_{i}.lock", "w")
+        try:
+            fcntl.flock(f, fcntl.LOCK_EX | fcntl.LOCK_NB)
+            _slot = f
+            break
+        except OSError:
+            f.close()
+    else:
+        time.sleep(5)
 passed = set(); failed = {}
 with ThreadPoolExecutor(14) as ex:
     for out in ex.map(run, files):
